@@ -188,6 +188,14 @@ func runC02(c *Ctx) {
 				}
 			}
 			if !okHit {
+				// or after slices.Contains(level's contributors, player) said yes
+				if hasCond(ps, func(v *Val) bool {
+					return v.K == KAtom && v.At.Op == "b" && !v.Neg && strings.HasPrefix(v.At.L, "slices.Contains") && strings.Contains(v.At.L, "(recv.Contributors, param:"+lu.Params[1].Name()+")")
+				}) {
+					okHit = true
+				}
+			}
+			if !okHit {
 				// or after a membership predicate over the level's contributors said yes
 				for _, e := range ps.Events {
 					if e.Kind != "call" || e.Fn == nil || len(e.Args) < 2 || e.Args[len(e.Args)-1].String() != "param:"+lu.Params[1].Name() {
